@@ -125,6 +125,8 @@ def _check_discard(mon, tr, step, prop="C02"):
                 margin = mval - float(np.max(bi + bj))
                 tau = 1e-12 * (1 + np.abs(ci).max() + np.abs(cj).max() + bi.max())
                 res.append(1 if margin > tau else -1 if margin < -tau else 0)
+                if margin > tau and mval <= float(np.max(bi) + np.max(bj)):
+                    mon.count("auer_certified_only_by_per_objective_sum")  # widths differ across objectives and it matters
         must_discard = any(r == 1 for r in res)
         must_keep = all(r == -1 for r in res)
         observed = i in eliminated
@@ -213,6 +215,8 @@ def _check_admit(mon, tr, step):
                 margin = float(np.min(bi + bj)) - big  # "big_m < beta in every objective"  -> blocks i
                 tau = 1e-12 * (1 + np.abs(ci).max() + np.abs(cj).max())
                 rs.append(1 if margin > tau else -1 if margin < -tau else 0)
+                if margin > tau and big >= float(np.min(bi) + np.min(bj)):
+                    mon.count("auer_blocked_only_by_per_objective_sum")
             # i in P1 iff no j blocks
             tri[i] = -1 if any(r == 1 for r in rs) else (1 if all(r == -1 for r in rs) else 0)
         if any(v == 0 for v in tri.values()):
